@@ -210,6 +210,21 @@ class Core:
             for cfg, spec in ents:
                 loc = values[pkg].setdefault(locale_of(cfg), {"public": [], "string": [], "id": []})
                 loc["public"].append(("string", "res%d" % rid, rid))
+        # attributes the real ARSCParser.__init__ initialises with parameter-free expressions ({} / [] / None / constants ...)
+        init = pcls.lookup("__init__")
+        if init is not None:
+            from ..minipy import Frame
+            fr = Frame(it, pcls.module, {}, "ARSCParser.__init__", pcls)
+            for st in walk_no_nested(init.node):
+                if isinstance(st, ast.Assign) and len(st.targets) == 1 and isinstance(st.targets[0], ast.Attribute) \
+                        and isinstance(st.targets[0].value, ast.Name) and st.targets[0].value.id == "self" \
+                        and not any(isinstance(n, ast.Name) and n.id in init.params() for n in ast.walk(st.value)):
+                    try:
+                        v = it.eval(st.value, fr)
+                    except (NotEvaluable, PyRaise):
+                        continue
+                    if isinstance(v, (dict, list, set, int, str, bytes, bool, type(None))) and not isinstance(v, Sym):
+                        o.attrs.setdefault(st.targets[0].attr, v)
         o.attrs.update(analyzed=True, packages={pkg: []}, values=values,
                        resource_values={rid: {c: e for c, e in ents} for rid, ents in rows.items()},
                        resource_configs={pkg: {}}, resource_keys={pkg: {}}, stringpool_main=Obj(None, "stringpool"))
@@ -240,15 +255,19 @@ class Core:
             resolver = it.call(ClassV(cls), [res, wanted], {})
         except PyRaise as e:
             raise NotEvaluable("constructing the resolver raised %s" % e.name)
-        for k in range(2):
+        # resolve(start) twice on one resolver, then every other id of the table with a fresh resolver on the SAME parser
+        queries = [(resolver, start, "same resolver")] * 2 + [(None, rid, "same parser") for rid in sorted(table) if rid != start]
+        for rsv, rid, how in queries:
             try:
-                r = it.call(it.get_attr(resolver, "resolve"), [start], {})
+                if rsv is None:
+                    rsv = it.call(ClassV(cls), [res, wanted], {})
+                r = it.call(it.get_attr(rsv, "resolve"), [rid], {})
                 if it.choices:
                     raise NotEvaluable("the resolver's control flow depends on values the table model leaves open")
-                outcomes.append(("ok", r))
+                outcomes.append(("ok", r, rid, how))
             except PyRaise as e:
                 genuine = getattr(e, "on_none", False) or isinstance(e.node, ast.Raise)
-                outcomes.append(("raise", e.name, e.node, state.get("stack", []) or list(it.stack[-3:]), genuine, list(getattr(e, "where", []) or [])))
+                outcomes.append(("raise", e.name, e.node, state.get("stack", []) or list(it.stack[-3:]), genuine, rid))
                 break
         return outcomes
 
@@ -338,6 +357,17 @@ class Core:
             if bad:
                 continue
             ctx.ob("terminates", label, True, "%d resolve() calls return (interpreted, %d reachable values)" % (len(outs), len(expected)))
+            # later queries on the same parser (other start ids, fresh resolver each): history must not change the answer
+            for o in outs[2:]:
+                exp_o = reachable_leaves(table, o[2], config)
+                got_o = flat_strings(o[1])
+                miss_o = sorted(exp_o - got_o)
+                ctx.check("history-independent", "%s, then resolve(%d) on the same parser" % (label, o[2]), not miss_o, fres,
+                          "resolve() after an earlier resolve() on the same parser: reachable values missing",
+                          "table `%s`: after resolve(%d), resolve(%d) on the same parser returns %s but %s is reachable: %s missing -- the answer depends on what was resolved before"
+                          % (name, start, o[2], sorted(x for x in got_o if x.startswith("leaf#")), sorted(exp_o), miss_o), node=fres.node,
+                          detail="resolve(%d) after resolve(%d) still returns %s" % (o[2], start, sorted(exp_o)))
+            outs = outs[:2]
             got = [flat_strings(o[1]) for o in outs]
             miss = sorted(expected - got[0])
             ctx.check("returns-reachable-values", label, not miss, fres, "resolve() on `%s`: reachable values missing" % name,
